@@ -211,9 +211,10 @@ func (server *Server) close() error {
 
 // serve handles client connections.
 func (server *Server) serve() error {
-	defer server.close()
-
 	l := server.portListener
+	if l != nil {
+		defer l.Close()
+	}
 	for {
 		if l == nil {
 			break
@@ -231,8 +232,10 @@ func (server *Server) serve() error {
 
 // tlsServe handles client connections with TLS.
 func (server *Server) tlsServe() error {
-	defer server.close()
 	l := server.tlsPortListener
+	if l != nil {
+		defer l.Close()
+	}
 	tlsConfig := server.tlsConfig
 	for {
 		if l == nil {
